@@ -209,6 +209,17 @@ func (g *c08Gen) walk(name string, v VT, maxSteps int) (path string, leaf VT, st
 				path += fmt.Sprintf(".%d", idx)
 			}
 			cur, st = refIndex(cur, idx)
+		case (kind == "smap" || kind == "imap") && last && r.Chance(1, 3):
+			// a subscript whose type is not the map's key type (Go could convert it; the engine must not):
+			// the key is not in the map, whatever it converts to
+			var k string
+			if kind == "smap" {
+				k = r.Pick([]string{"65", "107", "1.5", "true", "0"})
+			} else {
+				k = r.Pick([]string{"1.5", "1.0", "2.0", `"1"`, `"2"`, "true"})
+			}
+			path += "[" + k + "]"
+			st = refNil
 		case kind == "imap" && valid && last:
 			k := []int{1, 2, 3}[r.Intn(3)]
 			path += fmt.Sprintf("[%d]", k)
@@ -465,7 +476,29 @@ func suiteC08Shadow(cfg Config, res *Result) {
 		if inCtx {
 			levels++
 		}
-		switch rng.Intn(8) {
+		switch rng.Intn(10) {
+		case 8:
+			// a macro parameter left without argument and without default is bound (to nothing) all the same
+			switch rng.Intn(3) {
+			case 0:
+				src, want = "{% macro m(x) %}[{{ x }}]{% endmacro %}{{ m() }}{{ x }}", "[]"+outer
+			case 1:
+				src, want = "{% macro m(a, x) %}[{{ a }}{{ x }}]{% endmacro %}{{ m(\"T\") }}{{ x }}", "[T]"+outer
+			default:
+				src, want = "{% macro m(x) %}[{% if x %}y{% else %}n{% endif %}]{% endmacro %}{{ m() }}", "[n]"
+			}
+			levels++
+		case 9:
+			// ... and so is a name a tag has bound to the empty value
+			switch rng.Intn(3) {
+			case 0:
+				src, want = "{% set x = nothing %}[{{ x }}]", "[]"
+			case 1:
+				src, want = "{% with x=nothing %}[{{ x }}]{% endwith %}{{ x }}", "[]"+outer
+			default:
+				src, want = "{% macro m(x) %}[{{ x }}]{% endmacro %}{{ m(nothing) }}{{ x }}", "[]"+outer
+			}
+			levels++
 		case 0:
 			src, want = "[{{ x }}]", "["+outer+"]"
 		case 1:
